@@ -3,12 +3,16 @@ import Qryn.Proofs.JsonStr
 import Qryn.Proofs.Lookup
 import Qryn.Proofs.SeriesIndex
 import Qryn.Ingest.Labels
+import Qryn.Proofs.LabelPipeline
 /-! # C04 — series identity depends only on the label set; every sample's series is indexed
 
 Property theorems only. Models: `Qryn.Fp.fingerprintWith` (= `fingerprintLabels`, constants from
 `Gen.Fingerprint`, city hash a parameter), `Qryn.Fp.encodeLabels` (the jx encoder) with the byte-level
 JSON parser `Qryn.JsonStr.parseObject`, and the series-index machine `Qryn.SeriesIndex` (cache read
-while parsing, set by `doParse` after the request succeeded; dates through `ToDate`). -/
+while parsing, set by `doParse` after the request succeeded; dates through `ToDate`), and — second part of this
+file — the label pipeline `Qryn.Pipeline` (`Ingest/LabelPipeline.lean`): the order of `sanitizeLabels`, the
+`__ttl_days__` block, `validUTF8Labels`, `fingerprintLabels`, `encodeLabels` regenerated from the source
+(`Gen.LabelPipeline`) and interpreted by the model. -/
 namespace Qryn.C04
 open Qryn Qryn.Fp Qryn.SeriesIndex Qryn.Gen
 
@@ -191,5 +195,254 @@ example : rowFor 0 ⟨8, 1704189600000000000, 1⟩ ∉
 example : toDate (timeUnix (-28800) (1704189600 : Int)).truncate24h = 19723 := by decide
 example : seriesDate (-28800) 1704189600000000000 = 19724 := by decide
 example : readerLower 1704189600000000000 = 19724 := by decide
+
+end Qryn.C04
+
+/-! # second part: the label pipeline (own `open`s: `Pipeline.run`/`Step` would clash with `SeriesIndex`) -/
+namespace Qryn.C04
+open Qryn Qryn.Fp Qryn.Gen Qryn.Pipeline
+open Qryn.Ingest (Labels sanitizeLabels validLabels identOf effective toValidUTF8 validUTF8 truncValue replacementChar)
+
+/-! ## the label pipeline: from the list a decoder hands over to the stored fingerprint and document -/
+
+/-- T: the order of `parserDoer.onEntries`, re-read from the source, is one the model understands, and it is:
+    the `__ttl_days__` block, `labels = validUTF8Labels(labels)`, then `fingerprintLabels(labels)` and
+    `encodeLabels(labels)` on the variable as it is -/
+theorem gen_pipeline_recognised :
+    genSteps = some [.assign .ttlStrip [], .assign .validUTF8 [], .fingerprint [], .document []] := by decide
+
+/-- T: that order obeys the discipline (one fingerprint call, made after the UTF-8 repair with no truncation in
+    between; the document written from the unchanged variable) -/
+theorem gen_pipeline_disciplined : ∃ steps, genSteps = some steps ∧ disciplined steps = true :=
+  ⟨_, gen_pipeline_recognised, by decide⟩
+
+/-- T: the fingerprint variable is what goes into `MFingerprint` of the samples and of the series rows and into the
+    cache key, the result of `encodeLabels` is what goes into `MLabels`; `validUTF8Labels` has the body the model
+    mirrors with the replacement U+FFFD; every shape was recognised -/
+theorem gen_pipeline_flows :
+    LabelPipeline.fpFlowsToSamples = true ∧ LabelPipeline.fpFlowsToSeries = true ∧ LabelPipeline.docFlowsToSeries = true ∧
+    LabelPipeline.validUTF8BodyOk = true ∧ LabelPipeline.replacement = replacementChar ∧
+    LabelPipeline.keyLayoutOk = true ∧ LabelPipeline.shapeOk = true := by decide
+
+/-- T: `fingerprintLabels`, `encodeLabels` and `validUTF8Labels` are called nowhere but in `onEntries`, once each:
+    no other path (traces, profiles, the reader) derives a series identity or a label document with them -/
+theorem gen_pipeline_sites :
+    LabelPipeline.callSites.filter (fun s => s.1 != "sanitizeLabels") =
+      [("validUTF8Labels", "writer/utils/unmarshal/builder.go", "parserDoer.onEntries"),
+       ("fingerprintLabels", "writer/utils/unmarshal/builder.go", "parserDoer.onEntries"),
+       ("encodeLabels", "writer/utils/unmarshal/builder.go", "parserDoer.onEntries")] := by decide
+
+/-- T: the decoders that call `onEntries`, the list each hands over and whether it went through `sanitizeLabels`
+    (Loki JSON, Loki protobuf, remote write, Influx: yes; Datadog, OTLP, Elastic: no) -/
+theorem gen_decoders_recognised :
+    LabelPipeline.decoders.map (fun d => (d.1, d.2.2.1)) =
+      [("datadogCFRequestDec", false), ("datadogRequestDec", false), ("datadogMetricsRequestDec", false),
+       ("ElasticUnmarshal", false), ("elasticBulkDec", false), ("influxDec", true), ("logsProtoDec", true),
+       ("promMetricsProtoDec", true), ("otlpLogDec", false), ("pushRequestDec", true)] := by decide
+
+/-- what `onEntries` fingerprints and documents is `identOf` (the list C03's rows carry the fingerprint of) -/
+theorem onEntries_labels (ctxTtl : Nat) (raw : Labels) :
+    onEntriesLabels ctxTtl raw = some (identOf ctxTtl raw, identOf ctxTtl raw) := by
+  simp [onEntriesLabels, gen_pipeline_recognised, outOf, run, stepRun, applyXfs, applyXf, identOf]
+
+/-- **disciplined_pipeline.** For EVERY order of the pipeline steps that obeys the discipline, every request TTL and
+    every label list (any bytes, any lengths): there is one list `ls` of valid UTF-8 strings such that the
+    fingerprint is `fingerprintWith ch outer ls`, and the stored document parses — under the byte-transparent RFC 8259
+    reader and under a reader that coerces invalid UTF-8 the way encoding/json does — to exactly `ls`. -/
+theorem disciplined_pipeline (steps : List Step) (h : disciplined steps = true) (ch outer : Bytes → W)
+    (ctxTtl : Nat) (raw : Labels) :
+    ∃ ls doc, storedFpOf steps ch outer ctxTtl raw = some (fingerprintWith ch outer ls) ∧
+      storedDocOf steps ctxTtl raw = some doc ∧ JsonStr.parseObject doc = some ls ∧ parseObjectGo doc = some ls ∧
+      AllValid ls := by
+  obtain ⟨ls, ho, hv⟩ := outOf_of_disciplined ctxTtl steps h raw
+  refine ⟨ls, encodeLabels ls, by simp [storedFpOf, ho], by simp [storedDocOf, ho], labels_json_roundtrip ls, ?_, hv⟩
+  simp [parseObjectGo, labels_json_roundtrip, coerce_labels_of_allValid ls hv]
+
+/-- **fp_of_stored_doc.** The code as it is: for every raw label list a decoder can hand to `onEntries` — invalid
+    UTF-8, values of every length, with or without a request TTL — the label set decoded from the stored document is
+    EXACTLY the list the stored fingerprint was computed from, and that list is `identOf`. -/
+theorem fp_of_stored_doc (ch outer : Bytes → W) (ctxTtl : Nat) (raw : Labels) :
+    ∃ doc, storedDoc ctxTtl raw = some doc ∧
+      storedFp ch outer ctxTtl raw = some (fingerprintWith ch outer (identOf ctxTtl raw)) ∧
+      JsonStr.parseObject doc = some (identOf ctxTtl raw) := by
+  refine ⟨encodeLabels (identOf ctxTtl raw), ?_, ?_, labels_json_roundtrip _⟩
+  · simp [storedDoc, onEntries_labels]
+  · simp [storedFp, onEntries_labels]
+
+/-- every name and value of the stored list is valid UTF-8 (`utf8.ValidString`) -/
+theorem stored_labels_valid_utf8 (ctxTtl : Nat) (raw : Labels) :
+    ∀ l, l ∈ identOf ctxTtl raw → validUTF8 l.1 = true ∧ validUTF8 l.2 = true :=
+  allValid_validLabels _
+
+/-- … hence a reader that replaces invalid UTF-8 (encoding/json: one U+FFFD per byte) sees the same list -/
+theorem fp_of_stored_doc_gojson (ctxTtl : Nat) (raw : Labels) :
+    ∃ doc, storedDoc ctxTtl raw = some doc ∧ parseObjectGo doc = some (identOf ctxTtl raw) := by
+  refine ⟨encodeLabels (identOf ctxTtl raw), by simp [storedDoc, onEntries_labels], ?_⟩
+  simp [parseObjectGo, labels_json_roundtrip, coerce_labels_of_allValid _ (allValid_validLabels _), identOf]
+
+/-- the same through a sanitising decoder (Loki, remote write, Influx): labels collected, `sanitizeLabels`
+    (name rule, truncation at byte 100 + "..."), labels appended afterwards, then `onEntries` -/
+theorem fp_of_stored_doc_decoder (ch outer : Bytes → W) (ctxTtl : Nat) (sanitises : Bool) (pre post : Labels) :
+    ∃ doc ls, storedDoc ctxTtl (decoderLabels sanitises pre post) = some doc ∧
+      storedFp ch outer ctxTtl (decoderLabels sanitises pre post) = some (fingerprintWith ch outer ls) ∧
+      JsonStr.parseObject doc = some ls ∧ parseObjectGo doc = some ls := by
+  obtain ⟨doc, h1, h2, h3⟩ := fp_of_stored_doc ch outer ctxTtl (decoderLabels sanitises pre post)
+  obtain ⟨doc', h1', h4⟩ := fp_of_stored_doc_gojson ctxTtl (decoderLabels sanitises pre post)
+  rw [h1] at h1'
+  cases h1'
+  exact ⟨doc, _, h1, h2, h3, h4⟩
+
+/-- **same_doc_same_fp.** Two raw label lists (of any two requests) that are stored as the same document get the
+    same fingerprint — for every inner and outer hash function. -/
+theorem same_doc_same_fp (ch outer : Bytes → W) (t₁ t₂ : Nat) (raw₁ raw₂ : Labels) (doc : Bytes)
+    (h₁ : storedDoc t₁ raw₁ = some doc) (h₂ : storedDoc t₂ raw₂ = some doc) :
+    storedFp ch outer t₁ raw₁ = storedFp ch outer t₂ raw₂ ∧ (storedFp ch outer t₁ raw₁).isSome = true := by
+  obtain ⟨d₁, e₁, f₁, p₁⟩ := fp_of_stored_doc ch outer t₁ raw₁
+  obtain ⟨d₂, e₂, f₂, p₂⟩ := fp_of_stored_doc ch outer t₂ raw₂
+  rw [h₁] at e₁; rw [h₂] at e₂
+  cases e₁; cases e₂
+  rw [p₁] at p₂
+  have := Option.some.inj p₂
+  rw [f₁, f₂, this]
+  simp
+
+/-! ### `strings.ToValidUTF8` and the cut at byte 100 -/
+
+theorem validUTF8_valid (s : Bytes) : validUTF8 (toValidUTF8 s) = true := Ingest.toValidUTF8_valid' s
+
+theorem validUTF8_id_on_valid (s : Bytes) (h : validUTF8 s = true) : toValidUTF8 s = s := Ingest.toValidUTF8_of_valid' s h
+
+theorem validUTF8_idempotent (s : Bytes) : toValidUTF8 (toValidUTF8 s) = toValidUTF8 s :=
+  Ingest.toValidUTF8_of_valid' _ (Ingest.toValidUTF8_valid' s)
+
+/-- the suffix the truncation appends is ASCII (today "...") -/
+theorem suffix_ascii : Ascii Gen.labelValueSuffix := by
+  intro c hc
+  have : ∀ c, c ∈ Gen.labelValueSuffix → c < 0x80 := by decide
+  exact this c hc
+
+/-- **truncate_then_valid.** A value longer than the limit is stored as: the repaired form of its first 100 bytes,
+    then the suffix — the repair never reaches into the suffix and the result is valid UTF-8. -/
+theorem truncate_then_valid (v : Bytes) (h : v.length > Gen.labelValueMax) :
+    toValidUTF8 (truncValue v) = toValidUTF8 (v.take Gen.labelValueCut) ++ Gen.labelValueSuffix ∧
+    validUTF8 (toValidUTF8 (truncValue v)) = true := by
+  refine ⟨?_, validUTF8_valid _⟩
+  simp only [truncValue, h, ↓reduceIte]
+  exact toValidUTF8_append_ascii _ _ suffix_ascii
+
+/-- a cut that falls between two runes changes nothing: the first 100 bytes and the suffix -/
+theorem truncate_on_boundary (v : Bytes) (h : v.length > Gen.labelValueMax)
+    (hv : validUTF8 (v.take Gen.labelValueCut) = true) :
+    toValidUTF8 (truncValue v) = v.take Gen.labelValueCut ++ Gen.labelValueSuffix := by
+  rw [(truncate_then_valid v h).1, validUTF8_id_on_valid _ hv]
+
+/-- **truncate_cut_in_rune.** A value `p ++ r ++ s` — `p` valid UTF-8 and not empty, `r` one well-formed multi-byte
+    rune lying across the cut — is stored as `p`, ONE U+FFFD for what is left of `r`, and the suffix. -/
+theorem truncate_cut_in_rune (p r s : Bytes) (hp : validUTF8 p = true) (hne : p ≠ []) (hr : OneRune r)
+    (h1 : p.length < Gen.labelValueCut) (h2 : Gen.labelValueCut < p.length + r.length)
+    (hmax : Gen.labelValueMax ≤ Gen.labelValueCut) :
+    toValidUTF8 (truncValue (p ++ r ++ s)) = p ++ replacementChar ++ Gen.labelValueSuffix := by
+  have hlen : (p ++ r ++ s).length > Gen.labelValueMax := by simp; omega
+  rw [(truncate_then_valid _ hlen).1]
+  have htake : (p ++ r ++ s).take Gen.labelValueCut = p ++ r.take (Gen.labelValueCut - p.length) := by
+    rw [List.append_assoc, List.take_append, List.take_of_length_le (by omega), List.take_append]
+    have : Gen.labelValueCut - p.length - r.length = 0 := by omega
+    simp [this]
+  rw [htake, toValidUTF8_append_valid p _ hp hne]
+  have := toValidUTF8_cut_rune r hr (Gen.labelValueCut - p.length) (by omega) (by omega) false
+  simp only [Bool.false_eq_true, ↓reduceIte] at this
+  simp only [toValidUTF8, this, List.append_assoc]
+
+
+/-! ### the series cache key -/
+
+/-- **cache_key_bytes_injective.** The 17 bytes `maybeAddFp` hashes (layout re-read from the source:
+    `gen_pipeline_flows`) determine the (day, fingerprint, type) triple: the hypothesis of `acked_sample_indexed` on
+    `key` is exactly "CH64 does not collide on the 17-byte strings of the history". -/
+theorem cache_key_bytes_injective {d d' f f' : BitVec 64} {t t' : UInt8} (h : keyBytes d f t = keyBytes d' f' t') :
+    d = d' ∧ f = f' ∧ t = t' := keyBytes_inj h
+
+theorem gen_cache_key_layout :
+    LabelPipeline.keyLayout = [("day", 0, 8), ("fp", 8, 16), ("type", 16, 17)] ∧ LabelPipeline.keyLayoutOk = true := by decide
+
+/-! ### orders the code must not have (kernel-checked counterexamples) -/
+
+/-- the order of seeded change C04-3: fingerprint from the raw list, UTF-8 repair only where the document is written -/
+def fpBeforeValidUTF8 : List Step := [.assign .ttlStrip [], .fingerprint [], .document [.validUTF8]]
+
+/-- truncation (sanitizeLabels) after the UTF-8 repair -/
+def truncateAfterValidUTF8 : List Step :=
+  [.assign .ttlStrip [], .assign .validUTF8 [], .assign .sanitize [], .fingerprint [], .document []]
+
+/-- "a" = 99 × 'a' then a two-byte rune (`é` = C3 A9, `Ā` = C4 80) then "zzz": the rune lies across byte 100 -/
+def cutValue (b0 b1 : UInt8) : Bytes := List.replicate 99 97 ++ [b0, b1, 122, 122, 122]
+def cutRaw (b0 b1 : UInt8) : Labels := sanitizeLabels [([97], cutValue b0 b1)]
+
+/-- simple concrete hashes for the witnesses (any functions will do) -/
+def demoHash (b : Bytes) : W := BitVec.ofNat 64 (b.foldl (fun a c => a * 31 + c.toNat) 7)
+
+/-- the stored form of both witnesses: 99 × 'a', U+FFFD, "..." -/
+def cutStored : Labels := [([97], List.replicate 99 97 ++ [0xEF, 0xBF, 0xBD, 46, 46, 46])]
+
+theorem fpBeforeValidUTF8_not_disciplined : disciplined fpBeforeValidUTF8 = false := by decide
+
+/-- **fp_before_validUTF8_counterexample.** With the fingerprint taken before the UTF-8 repair the property fails:
+    `{a="a…aé…"}` and `{a="a…aĀ…"}` (rune across byte 100) are stored as the SAME document, the lists fingerprinted
+    differ, and the fingerprints differ (for the demo hash). -/
+theorem fp_before_validUTF8_counterexample :
+    storedDocOf fpBeforeValidUTF8 0 (cutRaw 0xC3 0xA9) = some (encodeLabels cutStored) ∧
+    storedDocOf fpBeforeValidUTF8 0 (cutRaw 0xC4 0x80) = some (encodeLabels cutStored) ∧
+    (outOf 0 fpBeforeValidUTF8 (cutRaw 0xC3 0xA9)).map (·.1) ≠ (outOf 0 fpBeforeValidUTF8 (cutRaw 0xC4 0x80)).map (·.1) ∧
+    storedFpOf fpBeforeValidUTF8 demoHash demoHash 0 (cutRaw 0xC3 0xA9) ≠
+      storedFpOf fpBeforeValidUTF8 demoHash demoHash 0 (cutRaw 0xC4 0x80) := by decide +kernel
+
+/-- so `same_doc_same_fp` is false of that order -/
+theorem fp_before_validUTF8_breaks_same_doc :
+    ¬ (∀ (ch outer : Bytes → W) (raw₁ raw₂ : Labels), storedDocOf fpBeforeValidUTF8 0 raw₁ = storedDocOf fpBeforeValidUTF8 0 raw₂ →
+        storedFpOf fpBeforeValidUTF8 ch outer 0 raw₁ = storedFpOf fpBeforeValidUTF8 ch outer 0 raw₂) := by
+  intro h
+  have hc := fp_before_validUTF8_counterexample
+  exact hc.2.2.2 (h demoHash demoHash _ _ (by rw [hc.1, hc.2.1]))
+
+/-- **truncate_after_validUTF8_counterexample.** With the truncation after the repair the document holds half a
+    rune: a reader that coerces invalid UTF-8 (encoding/json) decodes a list that is not the one fingerprinted. -/
+theorem truncate_after_validUTF8_counterexample :
+    disciplined truncateAfterValidUTF8 = false ∧
+    ∃ ls doc, outOf 0 truncateAfterValidUTF8 [([97], cutValue 0xC3 0xA9)] = some (ls, ls) ∧
+      storedDocOf truncateAfterValidUTF8 0 [([97], cutValue 0xC3 0xA9)] = some doc ∧
+      JsonStr.parseObject doc = some ls ∧ parseObjectGo doc ≠ some ls := by
+  refine ⟨by decide, [([97], List.replicate 99 97 ++ [0xC3, 46, 46, 46])], _, ?_, rfl, ?_, ?_⟩ <;> decide +kernel
+
+/-! ### non-vacuity: the code's order on values with a rune across the cut -/
+
+-- both witnesses are stored under ONE document and ONE fingerprint input by the code as it is
+example : onEntriesLabels 0 (cutRaw 0xC3 0xA9) = some (cutStored, cutStored) := by decide +kernel
+example : onEntriesLabels 0 (cutRaw 0xC4 0x80) = some (cutStored, cutStored) := by decide +kernel
+-- a three-byte rune (日 = E6 97 A5) starting at byte 98 / 99 (cut after two bytes / one byte), a four-byte rune (😀) at 97
+example : toValidUTF8 (truncValue (List.replicate 98 97 ++ [0xE6, 0x97, 0xA5, 122])) =
+    List.replicate 98 97 ++ [0xEF, 0xBF, 0xBD, 46, 46, 46] := by decide +kernel
+example : toValidUTF8 (truncValue (List.replicate 99 97 ++ [0xE6, 0x97, 0xA5, 122])) =
+    List.replicate 99 97 ++ [0xEF, 0xBF, 0xBD, 46, 46, 46] := by decide +kernel
+example : toValidUTF8 (truncValue (List.replicate 97 97 ++ [0xF0, 0x9F, 0x98, 0x80, 122])) =
+    List.replicate 97 97 ++ [0xEF, 0xBF, 0xBD, 46, 46, 46] := by decide +kernel
+-- the rune ends exactly at byte 100: nothing is repaired; a value of exactly 100 bytes is not truncated at all
+example : toValidUTF8 (truncValue (List.replicate 98 97 ++ [0xC3, 0xA9, 122])) =
+    List.replicate 98 97 ++ [0xC3, 0xA9, 46, 46, 46] := by decide +kernel
+example : truncValue (List.replicate 98 97 ++ [0xC3, 0xA9]) = List.replicate 98 97 ++ [0xC3, 0xA9] := by decide +kernel
+-- the hypotheses of `truncate_cut_in_rune` are satisfiable: p = 99 × 'a', r = é
+example : OneRune [0xC3, 0xA9] ∧ validUTF8 (List.replicate 99 97) = true ∧ (List.replicate 99 97).length < Gen.labelValueCut ∧
+    Gen.labelValueCut < (List.replicate 99 97).length + [0xC3, 0xA9].length ∧ Gen.labelValueMax ≤ Gen.labelValueCut := by
+  refine ⟨⟨by decide, by decide⟩, ?_⟩
+  decide +kernel
+-- over-long encoding (C0 AF), surrogate (ED A0 80), beyond U+10FFFF (F4 90 80 80): every byte is invalid, one U+FFFD per run
+example : toValidUTF8 [97, 0xC0, 0xAF, 98, 0xED, 0xA0, 0x80, 99, 0xF4, 0x90, 0x80, 0x80] =
+    [97, 0xEF, 0xBF, 0xBD, 98, 0xEF, 0xBF, 0xBD, 99, 0xEF, 0xBF, 0xBD] := by decide +kernel
+-- … while encoding/json's coercion writes one per byte (the two readers differ exactly on invalid input)
+example : coerceUTF8 [97, 0xC0, 0xAF, 98] = [97, 0xEF, 0xBF, 0xBD, 0xEF, 0xBF, 0xBD, 98] := by decide +kernel
+-- a request TTL label is an instruction, not part of the identity (no TTL header) — and is kept with a header
+example : onEntriesLabels 0 [([97], [98]), (Ingest.ttlLabel, [55])] = some ([([97], [98])], [([97], [98])]) := by decide +kernel
+example : (onEntriesLabels 3 [([97], [98]), (Ingest.ttlLabel, [55])]).map (·.1.length) = some 2 := by decide +kernel
+-- the cache key bytes of (day 19724·86400, fp 7, type 1)
+example : (keyBytes (BitVec.ofNat 64 (19724 * 86400)) 7 1).length = 17 := by decide +kernel
 
 end Qryn.C04
